@@ -26,7 +26,7 @@ def seed_table():
 
 def history_table():
     out = ['| seed | detection history |', '|---|---|']
-    for d in sorted(glob.glob(os.path.join(V, "seeded", "*-[34]"))):
+    for d in sorted(glob.glob(os.path.join(V, "seeded", "*-[345]"))):
         m = json.load(open(os.path.join(d, 'meta.json')))
         out.append(f"| {os.path.basename(d)} | {ab(m.get('detection_history', ''), 900)} |")
     return '\n'.join(out)
